@@ -21,7 +21,7 @@ from .common import CACHEFILE
 PROPERTY = "C11"
 LEVEL = "fault_enumeration"
 RUNS = {"quick": 3000, "thorough": 60000}
-BATCH = 25
+BATCH = 40
 RULE = ("seeded scenarios: (directory tree, server type, fault kind in {truncate-at-cut, zero-fill, "
         "writer crash at cut, ENOSPC at cut, concurrent readers vs torn writer, ZIP index file faults}, "
         "cut position, writer and reader protocol); a run is non-trivial when its fault fired or a "
@@ -81,21 +81,27 @@ def gen(seed, index, tier):
 
 
 def SWEEP(tier):
-    """Every prefix length of the cache of one fixed small directory (both
-    tiers; the thorough tier adds a larger directory and more protocols)."""
+    """Every prefix length of the cache of fixed small directories.  The cache of even a
+    one-entry directory is ~3 KB (every entry pickles the whole configuration), so the sweep
+    runs up to 12 000 and offsets beyond the actual size are skipped as trivial.
+    quick: every offset for a one-entry directory, every 3rd for a three-entry one;
+    thorough: every offset of both, through four reader protocols."""
     out = []
-    spec = [{"p": "docs", "k": "dir"},
-            {"p": "docs/alpha.txt", "k": "file", "d": "a\n"},
-            {"p": "docs/beta.html", "k": "file", "d": "<title>Beta</title>"},
-            {"p": "docs/sub", "k": "dir"}, {"p": "docs/sub/x.txt", "k": "file", "d": "x"}]
+    spec1 = [{"p": "docs", "k": "dir"}, {"p": "docs/alpha.txt", "k": "file", "d": "a\n"}]
+    spec3 = [{"p": "docs", "k": "dir"},
+             {"p": "docs/alpha.txt", "k": "file", "d": "a\n"},
+             {"p": "docs/beta.html", "k": "file", "d": "<title>Beta</title>"},
+             {"p": "docs/sub", "k": "dir"}, {"p": "docs/sub/x.txt", "k": "file", "d": "x"}]
     readers = ["gopher"] if tier == "quick" else ["gopher", "http", "gopher$", "gemini"]
-    step = 3 if tier == "quick" else 1
+    plans = [(spec1, 1, 4200), (spec3, 3 if tier == "quick" else 1, 12000)]
+    chunk = 150
     for rp in readers:
-        for k in range(0, 1400, step):
-            out.append({"kind": "trunc", "spec": spec, "dir": "docs",
-                        "servertype": "ThreadingTCPServer", "protoA": "gopher", "protoB": rp,
-                        "cut": {"abs": k}, "sched_seed": 1, "handlers": "default",
-                        "sweep": True})
+        for spec, step, top in plans:
+            for lo in range(0, top, chunk * step):
+                out.append({"kind": "trunc-sweep", "spec": spec, "dir": "docs",
+                            "servertype": "ThreadingTCPServer", "protoA": "gopher", "protoB": rp,
+                            "cuts": list(range(lo, min(top, lo + chunk * step), step)),
+                            "cut": {"abs": lo}, "sched_seed": 1, "handlers": "default", "sweep": True})
     return out
 
 
@@ -151,6 +157,8 @@ def execute(sc, tape=None):
         tp = Tape(sc["sched_seed"], replay=tape)
         if sc["kind"] == "race":
             return _exec_race(sc, root, refs, sel, tp)
+        if sc["kind"] == "trunc-sweep":
+            return _exec_sweep(sc, root, refs, sel, tp)
         if sc["kind"] == "zip":
             return _exec_zip(sc, root, refs, sel, tp)
         return _exec_cut(sc, root, refs, sel, tp)
@@ -243,6 +251,53 @@ def _exec_cut(sc, root, refs, sel, tp):
     sim_s = sum(r.sim.now - sched.EPOCH for r in runs[-1:])
     return common.result(viol, shape, counters, common.run_digest(runs, resps), tp.rec, sim_s,
                          sum(r.sim.steps for r in runs), sum(r.sim.switches for r in runs))
+
+
+def _exec_sweep(sc, root, refs, sel, tp):
+    """Many prefix lengths of ONE cache file against one long-lived server: the stored
+    cache is put back in full before each cut."""
+    cachepath = os.path.join(root, sc["dir"], CACHEFILE)
+    run = _mkrun(sc, root, tp)
+    viol = None
+    counters = {}
+    resps = []
+    shapes = []
+    with run:
+        run.fs.watch_open = CACHEFILE
+        reqA, tlsA = proto.make_request(sc["protoA"], sel)
+        c1 = run.client(reqA, tls=tlsA)
+        run.go()
+        viol = _check_resp(sc, run, sc["protoA"], c1, refs, "first-listing")
+        with simfs.real_open(cachepath, "rb") as f:
+            full = f.read()
+        size = len(full)
+        reqB, tlsB = proto.make_request(sc["protoB"], sel)
+        for k in sc["cuts"]:
+            if viol is not None or k > size:
+                break
+            with simfs.real_open(cachepath, "wb") as f:
+                f.write(full[:k])
+            simfs.real_utime(cachepath, (run.sim.now, run.sim.now))
+            n0 = len(run.fs.open_sizes)
+            c = run.client(reqB, tls=tlsB)
+            run.go()
+            resps.append(bytes(c.s2c))
+            counters["stored_file_damaged"] = counters.get("stored_file_damaged", 0) + 1
+            if any(m == "r" for (_, m, _) in run.fs.open_sizes[n0:]):
+                counters["reader_opened_damaged_cache"] = counters.get("reader_opened_damaged_cache", 0) + 1
+            v = _check_resp(sc, run, sc["protoB"], c, refs, "listing-after-cut")
+            if v is not None:
+                v["signature"]["fault"] = "trunc"
+                v["detail"] = "cut=%d of %d: %s" % (k, size, v["detail"])
+                viol = v
+                sc_cut = k
+            shapes.append(["trunc", "dir-cache", "k%d" % k, sc["protoB"], len(sc["spec"])])
+        run.shutdown()
+        counters = common.merge_counters(counters, common.run_counters(run))
+    res = common.result(viol, None, counters, common.run_digest(run, resps), tp.rec,
+                        run.sim.now - sched.EPOCH, run.sim.steps, run.sim.switches)
+    res["shapes"] = shapes
+    return res
 
 
 def _exec_race(sc, root, refs, sel, tp):
@@ -374,6 +429,11 @@ def _exec_zip(sc, root, refs, sel, tp):
 
 def shrink(sc):
     """Simpler scenarios: fewer world entries, simpler protocols, no torn cuts."""
+    if sc["kind"] == "trunc-sweep":
+        if len(sc["cuts"]) > 1:
+            for k in sc["cuts"]:
+                yield dict(sc, cuts=[k])
+        return
     spec = sc["spec"]
     keep = [e for e in spec if e["k"] == "dir" and e["p"] == sc["dir"]]
     rest = [e for e in spec if e not in keep]
